@@ -75,7 +75,13 @@ func (c *c45Ch) Bool() bool { return c.N(2) == 1 }
 
 // c45Enumerate calls emit(vec, msg) for every derivation of gen.
 func c45Enumerate(thorough bool, gen func(*c45Ch) proto.Message, emit func(vec []uint8, m proto.Message) bool) {
-	var vec []uint8
+	c45EnumerateFrom(thorough, gen, nil, emit)
+}
+
+// c45EnumerateFrom calls emit for every derivation of gen whose choice vector
+// starts with prefix (the first len(prefix) choices are never changed).
+func c45EnumerateFrom(thorough bool, gen func(*c45Ch) proto.Message, prefix []uint8, emit func(vec []uint8, m proto.Message) bool) {
+	vec := append([]uint8(nil), prefix...)
 	for {
 		c := &c45Ch{vec: vec, max: make([]uint8, len(vec), len(vec)+16), Thorough: thorough}
 		m := gen(c)
@@ -85,15 +91,44 @@ func c45Enumerate(thorough bool, gen func(*c45Ch) proto.Message, emit func(vec [
 			return
 		}
 		i := len(c.vec) - 1
-		for ; i >= 0; i-- {
+		for ; i >= len(prefix); i-- {
 			if c.vec[i]+1 < c.max[i] {
 				break
 			}
 		}
-		if i < 0 {
+		if i < len(prefix) {
 			return
 		}
 		vec = append([]uint8(nil), c.vec[:i+1]...)
+		vec[i]++
+	}
+}
+
+// c45Prefixes lists every distinct choice-vector prefix of length <= depth
+// (a derivation with fewer than depth choices is its own prefix). The sets
+// c45EnumerateFrom(prefix) for these prefixes partition the derivations.
+func c45Prefixes(thorough bool, gen func(*c45Ch) proto.Message, depth int) [][]uint8 {
+	var out [][]uint8
+	var vec []uint8
+	for {
+		c := &c45Ch{vec: vec, max: make([]uint8, len(vec), len(vec)+16), Thorough: thorough}
+		gen(c)
+		n := c.pos
+		if n > depth {
+			n = depth
+		}
+		pv, pm := c.vec[:n], c.max[:n]
+		out = append(out, append([]uint8(nil), pv...))
+		i := n - 1
+		for ; i >= 0; i-- {
+			if pv[i]+1 < pm[i] {
+				break
+			}
+		}
+		if i < 0 {
+			return out
+		}
+		vec = append([]uint8(nil), pv[:i+1]...)
 		vec[i]++
 	}
 }
@@ -605,28 +640,46 @@ func c45NewTally() *c45Tally {
 	return &c45Tally{evals: map[string]int64{}, accepted: map[string]int64{}, outcomes: map[string]int64{}, sampleAcc: map[string]c45Case{}}
 }
 
-// c45Pool runs cases on all CPUs.
+// c45Pool runs tasks on all CPUs. A task produces cases through emit; every
+// case is checked on the worker that runs the task (no central producer).
 type c45Pool struct {
-	ch       chan []c45Case
+	ch       chan func(emit func(c45Case) bool)
 	wg       sync.WaitGroup
 	tally    *c45Tally
 	thorough bool
-	ord      int64
-	batch    []c45Case
+	stop     func() bool // polled every 2048 cases; true = abandon (budget)
+	stopped  sync.Once
+	Stopped  bool
 }
 
-func c45NewPool(t *c45Tally, thorough bool) *c45Pool {
-	p := &c45Pool{ch: make(chan []c45Case, 64), tally: t, thorough: thorough}
+func c45NewPool(t *c45Tally, thorough bool, stop func() bool) *c45Pool {
+	p := &c45Pool{ch: make(chan func(emit func(c45Case) bool), 4096), tally: t, thorough: thorough, stop: stop}
 	n := runtime.GOMAXPROCS(0)
 	for w := 0; w < n; w++ {
 		p.wg.Add(1)
 		go func() {
 			defer p.wg.Done()
 			loc := c45NewTally()
-			for b := range p.ch {
-				for i := range b {
-					p.one(&b[i], loc)
+			n := 0
+			halted := false
+			emit := func(c c45Case) bool {
+				if halted {
+					return false
 				}
+				n++
+				if n%2048 == 0 && p.stop() {
+					halted = true
+					p.stopped.Do(func() { p.Stopped = true })
+					return false
+				}
+				p.one(&c, loc)
+				return true
+			}
+			for task := range p.ch {
+				if halted {
+					continue
+				}
+				task(emit)
 			}
 			t.mu.Lock()
 			for k, v := range loc.evals {
@@ -650,19 +703,10 @@ func c45NewPool(t *c45Tally, thorough bool) *c45Pool {
 	return p
 }
 
-func (p *c45Pool) Add(c c45Case) {
-	p.batch = append(p.batch, c)
-	if len(p.batch) >= 512 {
-		p.ch <- p.batch
-		p.batch = nil
-	}
-}
+// Go queues one task.
+func (p *c45Pool) Go(task func(emit func(c45Case) bool)) { p.ch <- task }
 
 func (p *c45Pool) Close() {
-	if len(p.batch) > 0 {
-		p.ch <- p.batch
-		p.batch = nil
-	}
 	close(p.ch)
 	p.wg.Wait()
 }
